@@ -219,11 +219,14 @@ func checkC17(c *check.Ctx) int {
 	done, nontrivial, compared, suppressed := 0, 0, 0, 0
 	subsets := map[string]bool{}
 	var samples []any
-	profiles := []string{"relay", "view", "subscribe"}
+	profiles := []string{"relay", "view", "subscribe", "departure", "component", "mixed"}
 	parallel(len(jobs), 16, func(i int) {
 		j := jobs[i]
-		cfg := e1.Config{Seed: c.Seed*3_000_017 + int64(j.hist)*7907 + 3, Steps: 110, MaxConns: 5, MaxSess: 2, Mods: "vod",
-			Profile: profiles[j.hist%len(profiles)], CheckEvery: 6, Avoid: avoidList()}
+		// the history is chosen by the position in the job list: every flag set
+		// meets several histories over the seeds, and a run covers 12 of them
+		h := (j.hist*4 + i) % 12
+		cfg := e1.Config{Seed: c.Seed*3_000_017 + int64(h)*7907 + 3, Steps: 120, MaxConns: 5, MaxSess: 2, Mods: "vod",
+			Profile: profiles[h%len(profiles)], CheckEvery: 6, Avoid: avoidList()}
 		res := e1.FlagDiff(c.WS, bin, sut.LabOpts{Frame: 2 * time.Millisecond, Name: "flag"}, cfg, j.flags)
 		mu.Lock()
 		defer mu.Unlock()
